@@ -1,6 +1,181 @@
-"""Kani side (filled in later): run harness groups in /repo under cfg(kani)."""
+"""Kani side: runs harness groups in place on the repository (cfg(kani) hooks) and parses the results.
+
+kani/groups.json:
+  { "<group>": { "features": "alloc", "n": {"quick": 3, "thorough": 4}, "unwind_extra": 3,
+                 "harnesses": [ {"name": "<fully qualified harness>", "kind": "contract|harness",
+                                 "function": "<real function(s) under check>", "tags": ["C20", ...],
+                                 "tier": "quick|thorough", "bounded": "N nodes"|"" , "should_panic": false } ] } }
+"""
+import json
+import os
+import re
+import subprocess
+import time
+
 import vxlib
 
+VERIF = vxlib.VERIF
+GROUPS = os.path.join(VERIF, "kani", "groups.json")
 
-def run_groups(prop, groups, tier, workdir):
-    raise vxlib.Infra("kani groups not implemented yet")
+
+def _run(cmd, cwd, env, timeout):
+    t0 = time.time()
+    try:
+        p = subprocess.run(cmd, cwd=cwd, env=env, capture_output=True, text=True, timeout=timeout)
+        return p.returncode, p.stdout + "\n" + p.stderr, time.time() - t0
+    except subprocess.TimeoutExpired as e:
+        out = (e.stdout or b"").decode(errors="replace") if isinstance(e.stdout, bytes) else (e.stdout or "")
+        return -9, out + "\nTIMEOUT after %ds" % timeout, time.time() - t0
+
+
+def parse_terse(out):
+    """returns {harness: {status, checks, failed, unreachable, covers_ok, covers_total, time_s, failed_checks:[...]}} """
+    res = {}
+    thread_h = {}
+    cur = None
+    single = None
+    for line in out.split("\n"):
+        m = re.match(r"^(?:Thread (\d+): )?Checking harness ([^\s.]+(?:\.[^\s.]+)*?)\.\.\.\s*$", line)
+        if m:
+            h = m.group(2)
+            res.setdefault(h, {"status": "UNKNOWN", "checks": 0, "failed": 0, "unreachable": 0, "covers_ok": None, "covers_total": None, "time_s": 0.0, "failed_checks": []})
+            if m.group(1) is not None:
+                thread_h[m.group(1)] = h
+            else:
+                single = h
+                cur = h
+            continue
+        m = re.match(r"^Thread (\d+):\s*$", line)
+        if m:
+            cur = thread_h.get(m.group(1))
+            continue
+        if cur is None:
+            continue
+        r = res[cur]
+        m = re.search(r"\*\* (\d+) of (\d+) failed(?: \((\d+) unreachable\))?", line)
+        if m:
+            r["failed"], r["checks"] = int(m.group(1)), int(m.group(2))
+            r["unreachable"] = int(m.group(3) or 0)
+            continue
+        m = re.search(r"\*\* (\d+) of (\d+) cover properties satisfied", line)
+        if m:
+            r["covers_ok"], r["covers_total"] = int(m.group(1)), int(m.group(2))
+            continue
+        m = re.match(r"^Failed Checks: (.*)$", line)
+        if m:
+            r["failed_checks"].append({"desc": m.group(1).strip(), "where": ""})
+            continue
+        m = re.match(r"^\s*File: \"([^\"]+)\", line (\d+), in (.*)$", line)
+        if m and r["failed_checks"]:
+            r["failed_checks"][-1]["where"] = "%s:%s in %s" % (m.group(1), m.group(2), m.group(3))
+            continue
+        m = re.match(r"^VERIFICATION:- (\w+)", line)
+        if m:
+            r["status"] = m.group(1)
+            continue
+        m = re.match(r"^Verification Time: ([0-9.]+)s", line)
+        if m:
+            r["time_s"] = float(m.group(1))
+            continue
+    return res
+
+
+def kani_cmd(features, extra):
+    cmd = ["cargo", "kani", "--no-default-features"]
+    if features:
+        cmd += ["--features", features]
+    cmd += ["-Z", "function-contracts", "-Z", "stubbing"] + extra
+    return cmd
+
+
+def run_groups(prop, groups, tier, workdir, only_harness=None):
+    allg = json.load(open(GROUPS))
+    os.makedirs(workdir, exist_ok=True)
+    infra, failed, harness_ev, cmds, samples = [], [], [], [], []
+    checks = failed_checks = 0
+    solver_s = 0.0
+    repo = vxlib.REPO
+    alt = os.path.realpath(repo) != "/repo"
+    for g in groups:
+        if g not in allg:
+            raise vxlib.Infra("unknown kani group %s" % g)
+        G = allg[g]
+        n = G.get("n", {}).get(tier, G.get("n", {}).get("quick", 3))
+        hs = [h for h in G["harnesses"] if prop in h["tags"] and (tier == "thorough" or h.get("tier", "quick") == "quick")]
+        if only_harness:
+            hs = [h for h in hs if h["name"] == only_harness]
+        if not hs:
+            continue
+        tdir = os.path.join(workdir if alt else os.path.join(vxlib.WORK, "kani"), "target-%s-n%s" % (g, n))
+        env = dict(os.environ, CARGO_NET_OFFLINE="true", VERIF_KANI_N=str(n), CARGO_TERM_COLOR="never")
+        env.pop("RUSTUP_TOOLCHAIN", None)
+        jobs = min(len(hs), int(os.environ.get("VERIF_KANI_JOBS", "12")))
+        extra = ["--target-dir", tdir, "--output-format", "terse", "--exact", "-j", str(jobs),
+                 "--default-unwind", str(n + G.get("unwind_extra", 3))]
+        for h in hs:
+            extra += ["--harness", h["name"]]
+        cmd = kani_cmd(G.get("features", "alloc"), extra)
+        cmds.append("(cd %s && VERIF_KANI_N=%s CARGO_NET_OFFLINE=true %s)" % (repo, n, " ".join(cmd)))
+        rc, out, wall = _run(cmd, repo, env, G.get("timeout", {}).get(tier, 3000))
+        open(os.path.join(workdir, "kani_%s.log" % g), "w").write(out)
+        if rc == -9:
+            infra.append("group %s: timeout" % g)
+            continue
+        if re.search(r"^error(\[E\d+\])?:", out, re.M) and "Checking harness" not in out:
+            infra.append("group %s: build failed: %s" % (g, "\n".join(l for l in out.split("\n") if l.startswith("error"))[:1500]))
+            continue
+        res = parse_terse(out)
+        for h in hs:
+            r = res.get(h["name"])
+            if r is None:
+                infra.append("group %s: harness %s produced no result (renamed/removed? unsupported construct?) -- see %s" % (g, h["name"], os.path.join(workdir, "kani_%s.log" % g)))
+                continue
+            sp = h.get("should_panic", False)
+            ok = r["status"] == "SUCCESSFUL"
+            checks += max(r["checks"], 1)
+            solver_s += r["time_s"]
+            ev = {"harness": h["name"], "kind": h["kind"], "function": h.get("function"), "group": g, "N": n, "bounded": h.get("bounded", "<= %d nodes" % n),
+                  "checks": r["checks"], "failed": r["failed"], "covers": [r["covers_ok"], r["covers_total"]], "time_s": r["time_s"], "status": r["status"]}
+            harness_ev.append(ev)
+            if r["covers_total"] and r["covers_ok"] != r["covers_total"]:
+                infra.append("harness %s: only %s of %s cover properties satisfied (vacuous pre-state?)" % (h["name"], r["covers_ok"], r["covers_total"]))
+            if not ok:
+                fc = r["failed_checks"] or [{"desc": "verification failed", "where": ""}]
+                # unwinding assertion failures are infrastructure, not violations
+                if all("unwinding assertion" in f["desc"] for f in fc):
+                    infra.append("harness %s: unwinding assertion failed (bound too small)" % h["name"])
+                    continue
+                if r["status"] not in ("FAILED",):
+                    infra.append("harness %s: status %s" % (h["name"], r["status"]))
+                    continue
+                failed_checks += max(r["failed"], 1)
+                name = "kani::%s::%s" % (h["name"], re.sub(r"\s+", " ", fc[0]["desc"])[:120])
+                failed.append({"name": name, "tags": h["tags"], "kind": h["kind"], "harness": h["name"], "group": g, "N": n,
+                               "rendered": "\n".join("%s  @ %s" % (f["desc"], f["where"]) for f in fc), "clause": h.get("function"), "fn": h.get("function")})
+            if len(samples) < 3:
+                samples.append({"obligation": "kani::" + h["name"], "function": h.get("function"), "checks": r["checks"], "status": r["status"], "bound": ev["bounded"]})
+    # concrete counterexamples for failed harnesses (replay channel)
+    for e in failed[:4]:
+        try:
+            e["counterexample"] = playback(e, allg[e["group"]], tier, workdir)
+        except Exception as ex:  # never turn a violation into a crash
+            e["counterexample"] = None
+            e["replay_note"] = "concrete playback failed: %s" % ex
+    return {"infra": infra, "failed": failed, "checks": checks, "failed_checks": failed_checks, "solver_s": solver_s,
+            "harnesses": harness_ev, "cmds": cmds, "samples": samples}
+
+
+def playback(e, G, tier, workdir):
+    """re-run one failed harness with concrete playback: returns the generated unit test (concrete bytes) as text"""
+    n = e["N"]
+    repo = vxlib.REPO
+    tdir = os.path.join(workdir, "target-playback")
+    env = dict(os.environ, CARGO_NET_OFFLINE="true", VERIF_KANI_N=str(n), CARGO_TERM_COLOR="never")
+    env.pop("RUSTUP_TOOLCHAIN", None)
+    cmd = kani_cmd(G.get("features", "alloc"), ["--target-dir", tdir, "--exact", "--harness", e["harness"], "--default-unwind", str(n + G.get("unwind_extra", 3)),
+                                                "-Z", "concrete-playback", "--concrete-playback=print"])
+    rc, out, wall = _run(cmd, repo, env, 1800)
+    m = re.search(r"(#\[test\]\s*\n\s*fn kani_concrete_playback.*?\n\})", out, re.S)
+    if not m:
+        return None
+    return {"harness": e["harness"], "unit_test": m.group(1), "how_to_run": "paste into the harness module and run `cargo kani playback -Z concrete-playback -- <test name>` in the repository"}
